@@ -54,18 +54,15 @@ func (h *simHook) Access(id int, addr func() unsafe.Pointer, write bool, site st
 		defer func() { _ = recover() }()
 		p = uintptr(addr())
 	}()
-	var local byte
-	sp := uintptr(unsafe.Pointer(&local))
-	d := p - sp
-	if p < sp {
-		d = sp - p
-	}
-	if p != 0 && d < 1<<20 {
-		// on (or next to) this goroutine's stack: not shared, and stack memory is
-		// recycled between goroutines without GC, so its addresses mean nothing.
-		p = 0
-	}
 	h.s.Access(ggql.VerifFieldNames[id], p, write, site)
+}
+
+//go:norace
+func (h *simHook) MapOrder(n int) int {
+	if !h.s.Active() {
+		return 0
+	}
+	return h.s.Choose(n)
 }
 
 // raceLog reads the race detector's log file incrementally.
